@@ -331,7 +331,9 @@ struct G {
       add_var(sc, wc, "int"); sc.frozen.push_back(wc);
       json loop{{"k", "while"}};
       json cond{{"k", "bin"}, {"op", "<"}, {"a", json{{"k", "var"}, {"n", wc}, {"t", "int"}}}, {"b", ilit(r.range(1, k.loop_max_iter))}, {"t", "bool"}};
-      if (r.chance(0.3)) { effect_budget = 1; cond = json{{"k", "bin"}, {"op", "and"}, {"a", cond}, {"b", json{{"k", "bool"}, {"v", true}}}, {"t", "bool"}}; effect_budget = 0; }
+      // a fault point inside the loop condition (an error there is raised while the loop holds the control)
+      if (can_vf(sc) && k.fault_point_rate > 0 && r.chance(0.4)) cond = json{{"k", "bin"}, {"op", "and"}, {"a", cond}, {"b", json{{"k", "pt"}, {"id", ++next_pt}, {"m", "pb"}, {"recv", vf_recv(sc)}, {"e", json{{"k", "bool"}, {"v", true}}}, {"t", "bool"}}}, {"t", "bool"}};
+      else if (r.chance(0.2)) cond = json{{"k", "bin"}, {"op", "and"}, {"a", cond}, {"b", json{{"k", "bool"}, {"v", true}}}, {"t", "bool"}};
       loop["c"] = cond;
       ++sc.loop_depth;
       json body = json::array(); body.push_back(json{{"k", "let"}, {"n", wc}, {"e", json{{"k", "bin"}, {"op", "+"}, {"a", json{{"k", "var"}, {"n", wc}, {"t", "int"}}}, {"b", ilit(1)}, {"t", "int"}}}});
